@@ -21,14 +21,17 @@ GRID_OK = [(0.5, 0.01), (0.5, 0.5), (0.9, 0.0), (0.0, 0.0), (0.3, 0.1), (0.999, 
 GRID_BAD = [(0.1, 0.5), (1.0, 0.5), (-0.1, -0.2), (0.5, 1.0)]
 
 
-def make_extrema(ctx, fn, src, dense=False):
+def make_extrema(ctx, fn, src, dense=False, nlab=3):
     import qubovert.utils as qu
     TY = O.types()
     T = TY[src]
     spin = fn in ('approximate_puso_extrema', 'approximate_quso_extrema')
     deg2 = fn in ('approximate_qubo_extrema', 'approximate_quso_extrema') or src in O.DEG2_TYPES
-    labs = list(range(3)) if src in O.MATRIX_TYPES else O.LABEL_POOL[:3]
-    U = O.universe(labs, 2) if deg2 else (O.universe(labs, 3) if dense else O.universe(labs, 1) + [(labs[0], labs[1]), tuple(labs)])
+    labs = list(range(nlab)) if src in O.MATRIX_TYPES else O.LABEL_POOL[:nlab]
+    if nlab == 4:
+        U = O.universe(labs, 1) + [(labs[0], labs[1]), (labs[0], labs[2]), (labs[2], labs[3])] + ([] if deg2 else [(labs[0], labs[1], labs[3]), tuple(labs)])
+    else:
+        U = O.universe(labs, 2) if deg2 else (O.universe(labs, 3) if dense else O.universe(labs, 1) + [(labs[0], labs[1]), tuple(labs)])
     if src == 'dict':
         U = U + [(labs[1], labs[0]), (labs[0], labs[0], labs[1])] if not deg2 else U + [(labs[1], labs[0]), (labs[0], labs[0])]
     cs = {k: ctx.real_var('c%d' % i) for i, k in enumerate(U)}
@@ -110,6 +113,8 @@ def jobs(tier, seed):
                     ('approximate_puso_extrema', O.SPIN_TYPES), ('approximate_quso_extrema', ['QUSO', 'QUSOMatrix'])]:
         for src in fam + ['dict']:
             add('extrema/%s/%s' % (fn, src), 'make_extrema', dict(fn=fn, src=src, dense=(tier != 'quick')))
+            if tier != 'quick':
+                add('extrema/%s/%s/n4' % (fn, src), 'make_extrema', dict(fn=fn, src=src, nlab=4))
     for src in O.BOOL_TYPES + O.SPIN_TYPES + ['dict', 'dict_spin']:
         add('temprange/%s' % src, 'make_temprange', dict(src=src))
     for src in ['PUBO', 'PUSO', 'QUSO', 'PCBO']:
